@@ -79,6 +79,11 @@ let rec sub n1 m =
             | O -> n1
             | S l -> sub k l)
 
+(** val eqb : bool -> bool -> bool **)
+
+let eqb b1 b2 =
+  if b1 then b2 else if b2 then false else true
+
 module Nat =
  struct
   (** val eqb : nat -> nat -> bool **)
@@ -15471,3 +15476,57 @@ let rec ki_b o o2 e = match e with
          | VExp v -> (&&) ((&&) (field_rt_b o o2 f) (ki_b o o2 v)) (dflt b fz)
          | _ -> false)
       | _ -> false))
+
+(** val sk_e : expr -> expr -> bool **)
+
+let rec sk_e e e' =
+  let E (l, op, r, _, _) = e in
+  let E (l', op', r', _, _) = e' in
+  (&&) ((&&) (op_eqb op op') (sk_v l l')) (sk_v r r')
+
+(** val sk_v : value -> value -> bool **)
+
+and sk_v v v' =
+  match v with
+  | VNil -> (match v' with
+             | VNil -> true
+             | _ -> false)
+  | VInt _ -> (match v' with
+               | VInt _ -> true
+               | _ -> false)
+  | VFloat _ -> (match v' with
+                 | VFloat _ -> true
+                 | _ -> false)
+  | VStr s ->
+    (match v' with
+     | VStr s' ->
+       (&&) (eqb (eqb0 s ('*'::[])) (eqb0 s' ('*'::[])))
+         (eqb (is_regex_text s) (is_regex_text s'))
+     | _ -> false)
+  | VBool _ -> (match v' with
+                | VBool _ -> true
+                | _ -> false)
+  | VCol c -> (match v' with
+               | VCol c' -> eqb0 c c'
+               | _ -> false)
+  | VExp a -> (match v' with
+               | VExp a' -> sk_e a a'
+               | _ -> false)
+  | VList l ->
+    (match v' with
+     | VList l' ->
+       let rec each l0 l'0 =
+         match l0 with
+         | [] -> (match l'0 with
+                  | [] -> true
+                  | _ :: _ -> false)
+         | x :: r ->
+           (match l'0 with
+            | [] -> false
+            | x' :: r' -> (&&) (sk_e x x') (each r r'))
+       in each l l'
+     | _ -> false)
+  | VBound (a, b, i) ->
+    (match v' with
+     | VBound (a', b', i') -> (&&) ((&&) (sk_v a a') (sk_v b b')) (eqb i i')
+     | _ -> false)
